@@ -75,6 +75,11 @@ CLAIMED = {
   text='Decides on finite descriptor families: the aggregate type description text (class letters, total element counts over all array dimensions, nested aggregates emitted first, union alternatives) for 11 struct/union shapes; that mkfunc registers the return type and every parameter type, named or not; for 40 (callee signature x argument list) combinations the converted argument types (parameter type for named, default promotions for variadic), arity diagnostics and the position of the variadic marker; parameter adjustment of arrays. Register classification of arbitrary aggregates by the backend and the va_list layouts (see C05.f) are outside this check.',
   note='Trusts clang 14 front end, lib/eai.py, the printf formatter and token-script models in props/c08.py.',
   design='5/C08'),
+ 'C10': dict(
+  technique='derived no-return set and exit-status constants; E-AI tables for unsupported-feature arms, member-declaration constraints (struct and union) and qualifier inheritance through member access; AST inventory of the 264 error()/fatal() call sites with guard polarity, compared with a reviewed baseline (deletion and inversion only)',
+  text='Decides structural clauses: error/fatal/usage never return and exit with the constants 1/2; the documented-unsupported features reach a diagnostic; 110 member-declaration cases (bit-field type/width/zero width, named/unnamed, struct and union) are accepted or diagnosed as C11 6.7.2.1 demands; member lvalues inherit the aggregate qualifiers so ++ through const is diagnosed; none of the 264 reference diagnostic sites has been deleted or had its guard inverted. Whether each surviving check tests exactly the condition the standard requires is NOT decided (other properties decide several: C05.c operand constraints, C09 linkage conflicts, C12/C13/C14 malformed tokens).',
+  note='Trusts clang 14 front end, lib/eai.py, baseline/diagnostics.json (regenerated only by tools/rebaseline.py after review; rule C10.c tolerates rewording/moving and reports it as drift).',
+  design='5/C10'),
  'C01': dict(
   technique='abstract interpretation (partial evaluation of the lowering functions over the static type/operator descriptor domain) + AST table extraction vs C11/QBE oracle tables',
   text='Decides structural clauses only: the instruction-selection, conversion, load/store, truthiness and bit-field shift tables that every compiled program is lowered through are extracted from the current source by an abstract interpreter and compared exhaustively (over the finite descriptor domain) with oracle tables written from C11 and the QBE manual; sibling switches are checked for exhaustiveness. Semantic equivalence of emitted IL for arbitrary programs is NOT decided.',
